@@ -66,8 +66,11 @@ type Config struct {
 	MaxSteps int
 	// Procs is what GOMAXPROCS(0)/NumCPU() report.
 	Procs int
-	// StmtYields enables the statement-level yields (rule R10).
-	StmtYields bool
+	// StmtYields enables the statement-level yields (rule R10) inside
+	// bgzf/cache; StmtYieldsAll those inside the other listed packages
+	// (package bgzf).
+	StmtYields    bool
+	StmtYieldsAll bool
 	// Trace, if set, is called by the scheduler for every decision.
 	Trace func(step, gid int, name, site string)
 }
@@ -542,6 +545,19 @@ func Yield(site string) {
 func StmtYield(site string) {
 	s := current.Load()
 	if s == nil || s.cur == nil || !s.cfg.StmtYields {
+		return
+	}
+	s.enter(site)
+}
+
+// StmtYieldAll is the statement-level scheduling point inserted into package
+// bgzf: it lets goroutines interleave between any two statements, so that an
+// access to shared state placed on the wrong side of a hand-off shows up as a
+// wrong result (the simulator otherwise switches only at synchronisation
+// operations).
+func StmtYieldAll(site string) {
+	s := current.Load()
+	if s == nil || s.cur == nil || !s.cfg.StmtYieldsAll {
 		return
 	}
 	s.enter(site)
